@@ -454,4 +454,23 @@ def metadataParams (clientStreaming : Bool) (inputType : List Char) (flattened :
   (if clientStreaming then [⟨"requests".toList, "Iterator[".toList ++ inputType ++ "]".toList⟩]
    else ⟨"request".toList, inputType⟩ :: flattened) ++ tailParams
 
+/-! ### 8. `result_type` of the metadata entry (`_fill_sample_metadata`) -/
+
+/-- `if not method.void: result_type = <client output>.ident.sphinx; if method.server_streaming: result_type =
+    f"Iterable[{result_type}]"`.  `outType` = `method.client_output[_async].ident.sphinx`.  The wrapping follows
+    `server_streaming` alone (so server-streaming AND bidi), for the sync and the asyncio entry alike. -/
+def metadataResultType (void serverStreaming : Bool) (outType : List Char) : Option (List Char) :=
+  if void then none
+  else some (if serverStreaming then "Iterable[".toList ++ outType ++ "]".toList else outType)
+
+/-- what the emitted client's method yields and what the sample template does with the call's value
+    (`stream = …` / `for response in stream:`): a response stream exactly for these two calling forms -/
+def CallingForm.yieldsStream : CallingForm → Bool
+  | .requestStreamingServer | .requestStreamingBidi => true
+  | _ => false
+
+/-- the metadata's result type has the stream shape `Iterable[…]` around `outType` -/
+def streamShaped (outType : List Char) (rt : Option (List Char)) : Bool :=
+  rt == some ("Iterable[".toList ++ outType ++ "]".toList)
+
 end GapicModel.Model.Samples
